@@ -74,3 +74,8 @@ def lock_discipline(repo):
 
 
 ITEMS = [lock_discipline]
+try:
+    from translate_c12 import ITEMS as _C12
+    ITEMS += _C12
+except ImportError:
+    pass
